@@ -8,7 +8,7 @@ from hplverif.tape import from_tape
 RULE = (
     'ASTs returned by the five parser entry points on type-directed and accepted type-chaotic generated texts, and every AST obtained from them '
     'by simplify, split_and, refactor_reference, replace_this_with_var, replace_var_with_this, negate, join and canonical_form, composed to depth 2, '
-    'plus the built-in x argument-shape table, are walked node by node (own walker) against an independent table of signatures: non-empty type set '
+    'plus the built-in x argument-shape table and whatever the parser returns for texts with one injected type clash, are walked node by node (own walker) against an independent table of signatures: non-empty type set '
     'within the node kind\'s mask, operands inside parameter types, declared result types, equal type sets on both sides of = / !=, bound variables '
     'compatible with the element type of their domain, predicate roots exactly boolean, and a common type for all occurrences of one reference. '
     'Non-trivial: some reference ended up narrower than its kind\'s default (inference did something); distinct by the printed AST.'
@@ -126,7 +126,26 @@ def gen_case(ch):
     return {'kind': kind, 'text': mast.render(('pred', m) if kind == 'predicate' else m)}
 
 
+def gen_clash_case(ch):
+    """Texts with one injected definite type clash (C05's generator): normally rejected, so nothing is
+    returned; whatever the parser does return for them must still satisfy the invariant."""
+    from hplverif.checks import c05
+
+    c = c05.gen_case(ch)
+    return {'kind': c['kind'], 'text': c['text'], 'family': 'clash'}
+
+
 def shard(ctx, shard_no, nshards, n):
+    def body_clash(inp):
+        a = sub_typed(inp)
+        if a is None:
+            ctx.count('clash-texts:rejected-by-parser')
+            return
+        ctx.case(str(a), True, 'clash-text-accepted:' + inp['kind'], sample=inp['text'])
+
+    with ctx.timed('clash-texts'):
+        core.run_hypothesis(ctx, 'clash', from_tape(gen_clash_case), body_clash, n // 2)
+
     def body(inp):
         a = sub_typed(inp)
         if a is None:
